@@ -276,7 +276,7 @@ func (c *c15Mon) finish(kind string) {
 	w.Bucket("pattern/" + kind)
 }
 
-var c15Offsets = []int64{0, 64, 128, 4096, 1 << 40}
+var c15Offsets = []int64{0, 64, 128, 4096, 1 << 40, 1 << 62}
 var c15Patterns = []string{"front-to-back", "back-to-front", "random-window", "repeats-and-below-offset", "fill-later-words-first", "interleaved-compact", "mixture"}
 
 func init() {
@@ -288,7 +288,7 @@ func init() {
 	register(&mon.Prop{
 		ID:    "C15",
 		Level: "exploration",
-		Rule: "seeded histories of Set/Compact/Get/Get1 from NewTailBitmap(o), o in {0,64,128,4096,2^40}: 7 patterns (front-to-back, back-to-front, random window around Offset, repeats and below-Offset, " +
+		Rule: "seeded histories of Set/Compact/Get/Get1 from NewTailBitmap(o), o in {0,64,128,4096,2^40,2^62}: 7 patterns (front-to-back, back-to-front, random window around Offset, repeats and below-Offset, " +
 			"filling later words before word 0 so that Compact drops many words at once, interleaved Compact, mixture) x <= 300 ops, plus long histories of 140000 consecutive bits (forward, shuffled within blocks, and with far-ahead bits set first so that words are stored when the threshold is crossed) that cross the 1024-word reclaim threshold. " +
 			"Invariants asserted after EVERY Set/Compact; full word-by-word comparison and Get/Get1 sweeps at quiescent points (every 8 ops; every 4096 ops in long histories) and around every Compact. " +
 			"distinct_nontrivial counts distinct abstract states (Offset advance in words, len(Words)) x history hash of histories in which Offset moved.",
